@@ -10,7 +10,7 @@ pub fn def() -> PropDef {
         builds: BOTH,
         rule: "every line over a 20-symbol mixed menu (spaces, tab, NBSP, ZWSP, word joiner, CJK, emoji, hyphen, soft hyphen, CR, LF, CSI and OSC sequences, digit, punctuation) up to length N, both separators (Unicode in the full build); non-trivial = a line with >= 2 words under some separator",
         assumptions: BASE_ASSUMPTIONS,
-        floor: |t| t.pick(10_000, 1_000_000),
+        floor: |t| t.pick(10_000, 30_000),
         run,
     }
 }
